@@ -1,38 +1,50 @@
 import Nv.Model.C16
 /-!
-C16 — one session under a proved configuration: the configuration is eliminated once
-(`quit_proved`, `sendStep_proved`, `recvStep_proved`), then the state invariant `SInv`.
+C16 — one session under a proved configuration and an exit callback that returns: the configuration is
+eliminated once (`sendStep_proved`, `recvStep_proved`), then the state invariant `SInv`.
+`quit` is four steps of the thread that won `exitOnce`; the other loop's `quit` blocks until it has finished.
 Helper lemmas for `Nv.Props.C16`.
 -/
 namespace Nv.C16
 
-/-- `quit` as the property wants it: everything, exactly once -/
-def quitP (s : Sess) : Sess :=
-  if s.onceDone then s else
-    { s with onceDone := true, exits := s.exits + 1, decs := s.decs + 1, qClosed := true, closes := s.closes + 1 }
-
-theorem quit_proved {c : Cfg} (hc : Proved c) (s : Sess) : quit c s = quitP s := by
-  obtain ⟨_, _, h3, h4, h5, h6, h7, _⟩ := hc
-  unfold quit quitP
-  cases h : s.onceDone <;> simp [h3, h4, h5, h6, h7]
-
-/-- `loopSend` of a proved configuration -/
+/-- `loopSend` of a proved configuration (OnExit returns) -/
 def sendStepP (s : Sess) : Option Sess :=
   match s.sendPc with
   | .idle =>
     match s.q with
-    | [] => if s.qClosed then some { s with sendPc := .quitting } else none
+    | [] => if s.qClosed then some { s with sendPc := .quitting .enter } else none
     | x :: rest => if x = [] then some { s with q := rest } else some { s with q := rest, sendPc := .writing x }
   | .writing x =>
-    if s.wfault || s.peerClosed || s.closes != 0 then some { s with sendPc := .quitting }
+    if s.wfault || s.peerClosed || s.closes != 0 then some { s with sendPc := .quitting .enter }
     else if s.peerDrain then some { s with sendPc := .idle, delivered := s.delivered ++ x }
     else none
-  | .quitting => some { quitP s with sendPc := .done }
+  | .quitting .enter =>
+    if s.onceDone then some { s with sendPc := .done }
+    else if s.onceTaken then none
+    else some { s with onceTaken := true, exits := s.exits + 1, sendPc := .quitting .dec }
+  | .quitting .dec => some { s with decs := s.decs + 1, sendPc := .quitting .closeQ }
+  | .quitting .closeQ => some { s with qClosed := true, sendPc := .quitting .closeConn }
+  | .quitting .closeConn => some { s with closes := s.closes + 1, onceDone := true, sendPc := .done }
+  | .quitting .stuck => none
   | .done => none
 
-theorem sendStep_proved {c : Cfg} (hc : Proved c) (s : Sess) : sendStep c s = sendStepP s := by
-  have hq := quit_proved hc s
-  obtain ⟨p1, p2, _, _, _, _, _, p8, _⟩ := hc
+/-- `loopReceive` of a proved configuration (OnExit returns) -/
+def recvStepP (s : Sess) : Option Sess :=
+  match s.recvPc with
+  | .reading => if s.peerClosed || s.closes != 0 then some { s with recvPc := .quitting false .enter } else none
+  | .quitting p .enter =>
+    if s.onceDone then some { s with recvPc := .done }
+    else if s.onceTaken then none
+    else some { s with onceTaken := true, exits := s.exits + 1, recvPc := .quitting p .dec }
+  | .quitting p .dec => some { s with decs := s.decs + 1, recvPc := .quitting p .closeQ }
+  | .quitting p .closeQ => some { s with qClosed := true, recvPc := .quitting p .closeConn }
+  | .quitting _ .closeConn => some { s with closes := s.closes + 1, onceDone := true, recvPc := .done }
+  | .quitting _ .stuck => none
+  | .done => none
+
+theorem sendStep_proved {c : Cfg} (hc : Proved c) (s : Sess) (hx : s.onExit = .returns) :
+    sendStep c s = sendStepP s := by
+  obtain ⟨p1, p2, p3, p4, p5, p6, p7, p8, _⟩ := hc
   unfold sendStep sendStepP
   cases h1 : s.sendPc with
   | idle =>
@@ -40,94 +52,309 @@ theorem sendStep_proved {c : Cfg} (hc : Proved c) (s : Sess) : sendStep c s = se
     | nil => rfl
     | cons x rest => simp [p1, p2]
   | writing x => rfl
-  | quitting => simp [p8, hq]
+  | quitting st =>
+    cases ho : s.onceDone <;> cases ht : s.onceTaken <;> cases st <;> simp [quitStep, p3, p4, p5, p6, p7, p8, hx, ho, ht]
   | done => rfl
 
-/-- `loopReceive` of a proved configuration -/
-def recvStepP (s : Sess) : Option Sess :=
-  match s.recvPc with
-  | .reading => if s.peerClosed || s.closes != 0 then some { s with recvPc := .quitting false } else none
-  | .quitting _ => some { quitP s with recvPc := .done }
-  | .done => none
-
-theorem recvStep_proved {c : Cfg} (hc : Proved c) (s : Sess) : recvStep c s = recvStepP s := by
-  have hq := quit_proved hc s
-  obtain ⟨_, _, _, _, _, _, _, _, p9, p10, _⟩ := hc
+theorem recvStep_proved {c : Cfg} (hc : Proved c) (s : Sess) (hx : s.onExit = .returns) (hn : s.crashed = false) :
+    recvStep c s = recvStepP s := by
+  obtain ⟨_, _, p3, p4, p5, p6, p7, _, p9, p10, _⟩ := hc
   unfold recvStep recvStepP
   cases h1 : s.recvPc with
   | reading => rfl
-  | quitting p => simp [p9, p10, hq]
+  | quitting p st =>
+    cases ho : s.onceDone <;> cases ht : s.onceTaken <;> cases st <;> simp [quitStep, p3, p4, p5, p6, p7, p9, p10, hx, hn, ho, ht]
   | done => rfl
+
+/-- what the counters must be while the owner of the once is at a stage -/
+def stageOk (s : Sess) : QStage → Prop
+  | .enter => True
+  | .dec => s.decs = 0 ∧ s.closes = 0
+  | .closeQ => s.decs = 1 ∧ s.closes = 0
+  | .closeConn => s.decs = 1 ∧ s.closes = 0 ∧ s.qClosed = true
+  | .stuck => False
 
 /-- state invariant of a session under a proved configuration -/
 structure SInv (s : Sess) : Prop where
-  exits_eq : s.exits = if s.onceDone then 1 else 0
-  decs_eq : s.decs = s.exits
-  closes_eq : s.closes = s.exits
-  once_closed : s.onceDone = true → s.qClosed = true
+  exit_ret : s.onExit = .returns
+  not_crashed : s.crashed = false
   send_done : s.sendPc = .done → s.onceDone = true
   recv_done : s.recvPc = .done → s.onceDone = true
-  not_crashed : s.crashed = false
+  fresh : s.onceTaken = false → s.onceDone = false ∧ s.exits = 0 ∧ s.decs = 0 ∧ s.closes = 0
+  fin : s.onceDone = true → s.onceTaken = true ∧ s.exits = 1 ∧ s.decs = 1 ∧ s.closes = 1 ∧ s.qClosed = true
+  mid : s.onceTaken = true → s.onceDone = false → s.exits = 1 ∧
+    ((∃ st, s.sendPc = .quitting st ∧ st ≠ .enter) ∨ (∃ p st, s.recvPc = .quitting p st ∧ st ≠ .enter))
+  sOwner : ∀ st, s.sendPc = .quitting st → st ≠ .enter →
+    s.onceTaken = true ∧ s.onceDone = false ∧ stageOk s st ∧ (∀ p st', s.recvPc = .quitting p st' → st' = .enter)
+  rOwner : ∀ p st, s.recvPc = .quitting p st → st ≠ .enter →
+    s.onceTaken = true ∧ s.onceDone = false ∧ stageOk s st ∧ (∀ st', s.sendPc = .quitting st' → st' = .enter)
 
 theorem sinv_init : SInv Sess.init := by
   constructor <;> simp [Sess.init]
 
-theorem sinv_quitP {s : Sess} (h : SInv s) : SInv (quitP s) ∧ (quitP s).onceDone = true := by
-  unfold quitP
-  obtain ⟨h1, h2, h3, h4, h5, h6, h7⟩ := h
-  cases ho : s.onceDone
-  · simp only [ho, Bool.false_eq_true, if_false] at h1 ⊢
-    refine ⟨⟨?_, ?_, ?_, ?_, ?_, ?_, ?_⟩, trivial⟩ <;> simp_all
-  · simp only [if_true]
-    exact ⟨⟨h1, h2, h3, h4, h5, h6, h7⟩, ho⟩
+theorem sinv_recv_enter {s : Sess} (h : SInv s) (hr : s.recvPc = .reading) (p : Bool) (f : Bool) :
+    SInv { s with recvPc := .quitting p .enter, faulted := f } := by
+  obtain ⟨h1, h2, h3, h4, h5, h6, h7, h8, h9⟩ := h
+  refine ⟨h1, h2, h3, by simp, h5, h6, ?_, ?_, by simp⟩
+  · intro a b
+    obtain ⟨e, o⟩ := h7 a b
+    refine ⟨e, ?_⟩
+    rcases o with o | ⟨p', st, o, _⟩
+    · exact Or.inl o
+    · rw [hr] at o; cases o
+  · intro st a b
+    obtain ⟨x1, x2, x3, _⟩ := h8 st a b
+    exact ⟨x1, x2, x3, by intro p' st' e; simp at e; exact e.2.symm⟩
 
 theorem sinv_env {s : Sess} (h : SInv s) (e : Env) : SInv (envStep s e) := by
-  obtain ⟨h1, h2, h3, h4, h5, h6, h7⟩ := h
+  have h' := h
+  obtain ⟨h1, h2, h3, h4, h5, h6, h7, h8, h9⟩ := h
   cases e <;> simp only [envStep]
-  all_goals (try split)
-  all_goals (constructor <;> simp_all)
+  case send bs => split <;> exact ⟨h1, h2, h3, h4, h5, h6, h7, h8, h9⟩
+  case close =>
+    refine ⟨h1, h2, h3, h4, h5, ?_, h7, ?_, ?_⟩
+    · intro a; obtain ⟨x1, x2, x3, x4, _⟩ := h6 a; exact ⟨x1, x2, x3, x4, rfl⟩
+    · intro st a b
+      obtain ⟨x1, x2, x3, x4⟩ := h8 st a b
+      refine ⟨x1, x2, ?_, x4⟩
+      cases st <;> simp_all [stageOk]
+    · intro p st a b
+      obtain ⟨x1, x2, x3, x4⟩ := h9 p st a b
+      refine ⟨x1, x2, ?_, x4⟩
+      cases st <;> simp_all [stageOk]
+  case peerClose => exact ⟨h1, h2, h3, h4, h5, h6, h7, h8, h9⟩
+  case peerDrain => exact ⟨h1, h2, h3, h4, h5, h6, h7, h8, h9⟩
+  case peerHold => exact ⟨h1, h2, h3, h4, h5, h6, h7, h8, h9⟩
+  case peerData => split <;> exact ⟨h1, h2, h3, h4, h5, h6, h7, h8, h9⟩
+  case readFail =>
+    split
+    · rename_i hr; exact sinv_recv_enter h' hr false true
+    · exact ⟨h1, h2, h3, h4, h5, h6, h7, h8, h9⟩
+  case handlerPanic =>
+    split
+    · rename_i hr; exact sinv_recv_enter h' hr true true
+    · exact ⟨h1, h2, h3, h4, h5, h6, h7, h8, h9⟩
+  case writeFail => exact ⟨h1, h2, h3, h4, h5, h6, h7, h8, h9⟩
+
+/-- the send loop moves among idle / writing / `quitting enter` (queue and delivered bytes may change) -/
+theorem sinv_send_move {s : Sess} (h : SInv s) (hold : ∀ st, s.sendPc = .quitting st → st = .enter) (_hnd : s.sendPc ≠ .done)
+    (new : SendPc) (hnew : ∀ st, new = .quitting st → st = .enter) (hnn : new ≠ .done) (q' : List (List Nat)) (d' : List Nat) :
+    SInv { s with sendPc := new, q := q', delivered := d' } := by
+  obtain ⟨h1, h2, h3, h4, h5, h6, h7, h8, h9⟩ := h
+  refine ⟨h1, h2, fun a => absurd a hnn, h4, h5, h6, ?_, ?_, ?_⟩
+  · intro a b
+    obtain ⟨e, o⟩ := h7 a b
+    refine ⟨e, ?_⟩
+    rcases o with ⟨st, o, ne⟩ | o
+    · exact absurd (hold st o) ne
+    · exact Or.inr o
+  · intro st a b; exact absurd (hnew st a) b
+  · intro p st a b
+    obtain ⟨x1, x2, x3, _⟩ := h9 p st a b
+    exact ⟨x1, x2, x3, fun st' e => hnew st' e⟩
 
 theorem sinv_sendStepP {s s' : Sess} (h : SInv s) (hs : sendStepP s = some s') : SInv s' := by
-  have hq := sinv_quitP h
-  obtain ⟨h1, h2, h3, h4, h5, h6, h7⟩ := h
+  have h' := h
+  obtain ⟨h1, h2, h3, h4, h5, h6, h7, h8, h9⟩ := h
   unfold sendStepP at hs
-  split at hs
-  · split at hs
+  cases hp : s.sendPc with
+  | idle =>
+    have hold : ∀ st, s.sendPc = .quitting st → st = .enter := by intro st e; rw [hp] at e; cases e
+    have hnd : s.sendPc ≠ .done := by rw [hp]; simp
+    simp only [hp] at hs
+    split at hs
     · split at hs
-      · cases hs; constructor <;> simp_all
+      · cases hs; exact sinv_send_move h' hold hnd _ (by intro st e; cases e; rfl) (by simp) s.q s.delivered
       · cases hs
-    · split at hs <;> (cases hs; constructor <;> simp_all)
-  · split at hs
-    · cases hs; constructor <;> simp_all
     · split at hs
-      · cases hs; constructor <;> simp_all
       · cases hs
-  · cases hs
-    obtain ⟨⟨q1, q2, q3, q4, q5, q6, q7⟩, q8⟩ := hq
-    constructor <;> simp_all
-  · cases hs
+        exact sinv_send_move h' hold hnd .idle (by intro st e; cases e) (by simp) _ s.delivered
+      · cases hs
+        exact sinv_send_move h' hold hnd _ (by intro st e; cases e) (by simp) _ s.delivered
+  | writing x =>
+    have hold : ∀ st, s.sendPc = .quitting st → st = .enter := by intro st e; rw [hp] at e; cases e
+    have hnd : s.sendPc ≠ .done := by rw [hp]; simp
+    simp only [hp] at hs
+    split at hs
+    · cases hs; exact sinv_send_move h' hold hnd _ (by intro st e; cases e; rfl) (by simp) s.q s.delivered
+    · split at hs
+      · cases hs; exact sinv_send_move h' hold hnd _ (by intro st e; cases e) (by simp) s.q _
+      · cases hs
+  | done => simp [hp] at hs
+  | quitting st =>
+    cases st with
+    | stuck => simp [hp] at hs
+    | enter =>
+      simp only [hp] at hs
+      split at hs
+      · rename_i hd
+        cases hs
+        obtain ⟨f1, f2, f3, f4, f5⟩ := h6 hd
+        refine ⟨h1, h2, fun _ => hd, h4, h5, h6, ?_, ?_, ?_⟩
+        · intro _ b; simp [hd] at b
+        · intro st a; cases a
+        · intro p st a b; have := (h9 p st a b).2.1; simp [hd] at this
+      · rename_i hd
+        split at hs
+        · cases hs
+        · rename_i ht
+          cases hs
+          have ht' : s.onceTaken = false := by simpa using ht
+          have hd' : s.onceDone = false := by simpa using hd
+          obtain ⟨_, e0, d0, c0⟩ := h5 ht'
+          refine ⟨h1, h2, by simp, ?_, by simp, by simp [hd'], ?_, ?_, ?_⟩
+          · intro a; have := h4 a; simp [hd'] at this
+          · intro _ _; exact ⟨by simp [e0], Or.inl ⟨.dec, rfl, by simp⟩⟩
+          · intro st a _
+            cases a
+            refine ⟨rfl, hd', ⟨d0, c0⟩, ?_⟩
+            intro p st' e
+            cases hst : decide (st' = .enter) with
+            | true => simpa using hst
+            | false =>
+              have := (h9 p st' e (by simpa using hst)).1
+              simp [ht'] at this
+          · intro p st a b
+            have := (h9 p st a b).1
+            simp [ht'] at this
+    | dec =>
+      simp only [hp] at hs
+      cases hs
+      obtain ⟨o1, o2, ⟨d0, c0⟩, o4⟩ := h8 .dec hp (by simp)
+      obtain ⟨e1, _⟩ := h7 o1 o2
+      refine ⟨h1, h2, by simp, h4, by simp [o1], by simp [o2], ?_, ?_, ?_⟩
+      · intro _ _; exact ⟨e1, Or.inl ⟨.closeQ, rfl, by simp⟩⟩
+      · intro st a _; cases a; exact ⟨o1, o2, ⟨by simp [d0], c0⟩, o4⟩
+      · intro p st a b; have := o4 p st a; exact absurd this b
+    | closeQ =>
+      simp only [hp] at hs
+      cases hs
+      obtain ⟨o1, o2, ⟨d1, c0⟩, o4⟩ := h8 .closeQ hp (by simp)
+      obtain ⟨e1, _⟩ := h7 o1 o2
+      refine ⟨h1, h2, by simp, h4, by simp [o1], by simp [o2], ?_, ?_, ?_⟩
+      · intro _ _; exact ⟨e1, Or.inl ⟨.closeConn, rfl, by simp⟩⟩
+      · intro st a _; cases a; exact ⟨o1, o2, ⟨d1, c0, rfl⟩, o4⟩
+      · intro p st a b; have := o4 p st a; exact absurd this b
+    | closeConn =>
+      simp only [hp] at hs
+      cases hs
+      obtain ⟨o1, o2, ⟨d1, c0, qc⟩, o4⟩ := h8 .closeConn hp (by simp)
+      obtain ⟨e1, _⟩ := h7 o1 o2
+      refine ⟨h1, h2, by simp, by simp, by simp [o1], ?_, by simp, ?_, ?_⟩
+      · intro _; exact ⟨o1, e1, d1, by simp [c0], qc⟩
+      · intro st a; cases a
+      · intro p st a b; have := o4 p st a; exact absurd this b
 
 theorem sinv_recvStepP {s s' : Sess} (h : SInv s) (hs : recvStepP s = some s') : SInv s' := by
-  have hq := sinv_quitP h
-  obtain ⟨h1, h2, h3, h4, h5, h6, h7⟩ := h
+  have h' := h
+  obtain ⟨h1, h2, h3, h4, h5, h6, h7, h8, h9⟩ := h
   unfold recvStepP at hs
-  split at hs
-  · split at hs
-    · cases hs; constructor <;> simp_all
+  cases hp : s.recvPc with
+  | reading =>
+    simp only [hp] at hs
+    split at hs
+    · cases hs; exact sinv_recv_enter h' hp false s.faulted
     · cases hs
-  · cases hs
-    obtain ⟨⟨q1, q2, q3, q4, q5, q6, q7⟩, q8⟩ := hq
-    constructor <;> simp_all
-  · cases hs
+  | done => simp [hp] at hs
+  | quitting p st =>
+    cases st with
+    | stuck => simp [hp] at hs
+    | enter =>
+      simp only [hp] at hs
+      split at hs
+      · rename_i hd
+        cases hs
+        refine ⟨h1, h2, h3, fun _ => hd, h5, h6, ?_, ?_, ?_⟩
+        · intro _ b; simp [hd] at b
+        · intro st a b; have := (h8 st a b).2.1; simp [hd] at this
+        · intro p st a; cases a
+      · rename_i hd
+        split at hs
+        · cases hs
+        · rename_i ht
+          cases hs
+          have ht' : s.onceTaken = false := by simpa using ht
+          have hd' : s.onceDone = false := by simpa using hd
+          obtain ⟨_, e0, d0, c0⟩ := h5 ht'
+          refine ⟨h1, h2, ?_, by simp, by simp, by simp [hd'], ?_, ?_, ?_⟩
+          · intro a; have := h3 a; simp [hd'] at this
+          · intro _ _; exact ⟨by simp [e0], Or.inr ⟨p, .dec, rfl, by simp⟩⟩
+          · intro st a b
+            have := (h8 st a b).1
+            simp [ht'] at this
+          · intro p' st a _
+            cases a
+            refine ⟨rfl, hd', ⟨d0, c0⟩, ?_⟩
+            intro st' e
+            cases hst : decide (st' = .enter) with
+            | true => simpa using hst
+            | false =>
+              have := (h8 st' e (by simpa using hst)).1
+              simp [ht'] at this
+    | dec =>
+      simp only [hp] at hs
+      cases hs
+      obtain ⟨o1, o2, ⟨d0, c0⟩, o4⟩ := h9 p .dec hp (by simp)
+      obtain ⟨e1, _⟩ := h7 o1 o2
+      refine ⟨h1, h2, h3, by simp, by simp [o1], by simp [o2], ?_, ?_, ?_⟩
+      · intro _ _; exact ⟨e1, Or.inr ⟨p, .closeQ, rfl, by simp⟩⟩
+      · intro st a b; have := o4 st a; exact absurd this b
+      · intro p' st a _; cases a; exact ⟨o1, o2, ⟨by simp [d0], c0⟩, o4⟩
+    | closeQ =>
+      simp only [hp] at hs
+      cases hs
+      obtain ⟨o1, o2, ⟨d1, c0⟩, o4⟩ := h9 p .closeQ hp (by simp)
+      obtain ⟨e1, _⟩ := h7 o1 o2
+      refine ⟨h1, h2, h3, by simp, by simp [o1], by simp [o2], ?_, ?_, ?_⟩
+      · intro _ _; exact ⟨e1, Or.inr ⟨p, .closeConn, rfl, by simp⟩⟩
+      · intro st a b; have := o4 st a; exact absurd this b
+      · intro p' st a _; cases a; exact ⟨o1, o2, ⟨d1, c0, rfl⟩, o4⟩
+    | closeConn =>
+      simp only [hp] at hs
+      cases hs
+      obtain ⟨o1, o2, ⟨d1, c0, qc⟩, o4⟩ := h9 p .closeConn hp (by simp)
+      obtain ⟨e1, _⟩ := h7 o1 o2
+      refine ⟨h1, h2, by simp, by simp, by simp [o1], ?_, by simp, ?_, ?_⟩
+      · intro _; exact ⟨o1, e1, d1, by simp [c0], qc⟩
+      · intro st a b; have := o4 st a; exact absurd this b
+      · intro p' st a; cases a
 
 theorem sinv_step {c : Cfg} (hc : Proved c) {s s' : Sess} {a : Act} (h : SInv s) (hs : step c s a = some s') : SInv s' := by
   cases a with
   | env e => simp only [step, Option.some.injEq] at hs; subst hs; exact sinv_env h e
-  | sendStep => rw [step, sendStep_proved hc] at hs; exact sinv_sendStepP h hs
-  | recvStep => rw [step, recvStep_proved hc] at hs; exact sinv_recvStepP h hs
+  | sendStep => rw [step, sendStep_proved hc s h.exit_ret] at hs; exact sinv_sendStepP h hs
+  | recvStep => rw [step, recvStep_proved hc s h.exit_ret h.not_crashed] at hs; exact sinv_recvStepP h hs
 
-/-- every reachable state of one session satisfies the invariant -/
+/-- every reachable state of one session (exit callback returns) satisfies the invariant -/
 theorem sinv_reach {c : Cfg} (hc : Proved c) : ∀ s, (sessLTS c).Reach s → SInv s :=
   (sessLTS c).inv_of_step SInv sinv_init (fun _ _ _ h hs => sinv_step hc h hs)
+
+/-- the three counters move together: 0 before the once is taken, 1 after it has finished -/
+theorem counters_le_one {s : Sess} (h : SInv s) : s.exits ≤ 1 ∧ s.decs ≤ 1 ∧ s.closes ≤ 1 := by
+  obtain ⟨h1, h2, h3, h4, h5, h6, h7, h8, h9⟩ := h
+  cases ht : s.onceTaken
+  · obtain ⟨_, a, b, c⟩ := h5 ht; omega
+  · cases hd : s.onceDone
+    · obtain ⟨e1, o⟩ := h7 ht hd
+      rcases o with ⟨st, o, ne⟩ | ⟨p, st, o, ne⟩
+      · obtain ⟨_, _, ok, _⟩ := h8 st o ne
+        cases st <;> simp [stageOk] at ok ne <;> omega
+      · obtain ⟨_, _, ok, _⟩ := h9 p st o ne
+        cases st <;> simp [stageOk] at ok ne <;> omega
+    · obtain ⟨_, a, b, c, _⟩ := h6 hd; omega
+
+theorem once_of_closes {s : Sess} (hS : SInv s) (h : s.closes ≠ 0) : s.onceDone = true := by
+  obtain ⟨h1, h2, h3, h4, h5, h6, h7, h8, h9⟩ := hS
+  cases ht : s.onceTaken
+  · obtain ⟨_, _, _, c⟩ := h5 ht; exact absurd c h
+  · cases hd : s.onceDone
+    · exfalso
+      obtain ⟨e1, o⟩ := h7 ht hd
+      rcases o with ⟨st, o, ne⟩ | ⟨p, st, o, ne⟩
+      · obtain ⟨_, _, ok, _⟩ := h8 st o ne
+        cases st <;> simp [stageOk] at ok ne <;> omega
+      · obtain ⟨_, _, ok, _⟩ := h9 p st o ne
+        cases st <;> simp [stageOk] at ok ne <;> omega
+    · rfl
 
 end Nv.C16
